@@ -67,3 +67,16 @@ Theorem C08_replies : forall state op payload h unmask copy_sizes masks,
   c08_reply_monitor state op payload (dest_log d') res = true.
 Proof. exact handle_reply_ok. Qed.
 Print Assumptions C08_replies.
+
+(* the error paths: a source that ends or fails before the announced payload length is
+   never answered — no pong with a shortened payload, no close reply, and the caller gets
+   the I/O error (proved as C16_handler_cut_payload in props/C16.v; restated here for the
+   reply side: nothing reaches the destination) *)
+Require Import HandlerCutProofs.
+Theorem C08_no_reply_to_cut_payload : forall state unmask h avail t copy_sizes masks,
+  (h_op h = 8 \/ h_op h = 9 \/ h_op h = 10) ->
+  0 < Z.to_N (h_len h) -> Z.to_N (h_len h) <= 125 -> len avail < Z.to_N (h_len h) ->
+  dest_log (snd (handle state unmask h avail t copy_sizes masks (mkDest [] None))) = [] /\
+  exists e, fst (handle state unmask h avail t copy_sizes masks (mkDest [] None)) = HIoErr e.
+Proof. exact handle_cut_no_reply. Qed.
+Print Assumptions C08_no_reply_to_cut_payload.
